@@ -15,7 +15,8 @@
     random start barriers and switch intervals) against the test transpiler
     and against the real malt transpiler (api.PyToPy): every returned function
     vs a cache-less fresh conversion, transform_ast invocations per (code
-    class, options) <= 1 per epoch; deterministic overlap probes;
+    class, options) <= 1 per epoch; deterministic overlap probes; a sweep with
+    one forced context switch before every line of transform_function (settrace);
     converted_call / to_graph histories incl. the allowlist cache
  5. if the discipline / the tie broke: the machine is searched (BFS over a
     Python mirror, result re-validated in Coq) for a violating 2-3 thread
